@@ -93,3 +93,38 @@ prop("C09", "exploration",
       "child-index (derivation counter) bumps are not counted as wallet state for the 'rejected input leaves state untouched' clause",
       "the verdict build is the release profile: arithmetic that only traps with debug assertions is not judged"],
      required_hist=["rejected:armor_decode", "accepted:deser_slatepack+decrypt+get_slate", "rejected:foreign-rpc:body", "rejected:owner-rpc:plaintext-body", "rejected:wallet.seed(open_wallet)", "rejected:get_stored_tx(file)"])
+
+HIST_RULE = ("random interleaved histories over 2 wallets x 2 accounts with up to 3-4 slates in flight (sends, late-locked sends, invoices, "
+             "self-sends; mining to either wallet or a neutral miner; refreshes incl. injected node failures; cancels; wallet restarts; "
+             "duplicated and re-ordered deliveries where the property quantifies over them), every call bracketed in an event log and "
+             "followed by the monitors; evaluations = steps executed; distinct = (slates in flight, locked, finalized, last operation) shapes "
+             "and judged book states; non-trivial = all steps (each is followed by a monitor pass)")
+
+prop("C03", "exploration", HIST_RULE + "; C03 monitor M-excl: every Locked output belongs to exactly one live sent entry of its account, every live sent "
+     "entry still holds its logged inputs, inputs of each finalized transaction are reserved for that slate, finalized live transactions are pairwise "
+     "input-disjoint, and a repeated tx_lock_outputs / receive_tx / finalize_tx / process_invoice_tx with the same slate to the same account is "
+     "refused without any change or returns Ok without adding entries, outputs or reservations",
+     [{"name": "c03", "cmd": "c03", "shards": {"quick": 14, "thorough": 16}, "args": {"thorough": {"histories": 10}}, "crash_is_violation": True}],
+     {"quick": 3000, "thorough": 40000},
+     ["deliveries of one slate to a different account are judged only by the exclusivity invariants (the statement says 'the same step')",
+      "histories of this check never cancel after broadcast"],
+     required_hist=["repeat:tx_lock_outputs:refused", "repeat:receive_tx:refused", "repeat:finalize_tx:refused", "finalized-inputs-checked", "op:cancel", "op:restart"])
+
+prop("C04", "exploration", HIST_RULE + "; C04 monitor M-books at every validated refresh: wallet records Unspent/Locked <=> commitment in the chain's UTXO set "
+     "(plus: no UTXO commitment ever held by the account is forgotten), reported spendable/immature/awaiting/locked/total for minimum_confirmations "
+     "{0,1,3,10} equal the partition recomputed from chain heights and coinbase flags, unspent+locked = confirmed credits - debits, and no operation "
+     "of one account locks or spends another account's outputs",
+     [{"name": "c04", "cmd": "c04", "shards": {"quick": 14, "thorough": 16}, "args": {"thorough": {"histories": 10}}, "crash_is_violation": True}],
+     {"quick": 3000, "thorough": 40000},
+     ["histories never cancel after broadcast and never reorganise (the statement excludes those)",
+      "refreshes that report validated=false or an error are not judged"],
+     required_hist=["books:judged", "transition:Unconfirmed->Unspent", "transition:Locked->Spent", "transition:Unspent->Locked", "op:refresh-not-validated", "op:restart"])
+
+prop("C15", "exploration", HIST_RULE + "; C15 monitor M-keypath: per wallet a map derivation path -> first (commitment, value) over every output record ever "
+     "seen (including later deleted ones); a path re-appearing with another commitment or value is a violation unless both are coinbase and the earlier "
+     "record was still an unconfirmed candidate; two simultaneous records may never share a path",
+     [{"name": "c15", "cmd": "c15", "shards": {"quick": 14, "thorough": 16}, "args": {"thorough": {"histories": 10}}, "crash_is_violation": True},
+      {"name": "c15r", "cmd": "c15r", "shards": {"quick": 2, "thorough": 8}, "crash_is_violation": True}],
+     {"quick": 3000, "thorough": 40000},
+     ["output records are observed after every step (a record created and deleted inside one wallet call is not seen)"],
+     required_hist=["op:receive", "op:lock", "op:mine", "op:restart", "restore:next-path-beyond-chain"])
